@@ -162,6 +162,7 @@ static void run_one(Ctx &c, const Mode &m, const uint8_t *d, size_t n, bool logg
   c.thorough = O.thorough;
   c.logging = logging;
   c.nontrivial = false;
+  c.include_known = getenv("VF_INCLUDE_KNOWN") != nullptr;
   c.ops = 0;
   c.log.clear();
   edge_reset();
